@@ -77,12 +77,12 @@ P('C08', theorems=['Tcs.C08_decision', 'Tcs.C08_matches_add_version', 'Tcs.C08_f
   owned={'gcv.kind', 'av.kind', 'http.status.gcv', 'http.status.av'},
   oracles=[O.o_c08, relabel(O.o_c03, 'C08: GetChildVersion answers not-found / gone exactly as an AddVersion at that moment would be accepted / rejected, also when requests overlap')],
   plan={'quick': [hist('c08', 220, LIBHTTP), sched(60, mix='gcvav', corpus='0')], 'thorough': [hist('c08', 3000, LIBHTTP), sched(1500, mix='gcvav', corpus='0')]})
-P('C10', theorems=['Tcs.C10_accept_iff', 'Tcs.C10_window_five', 'Tcs.C10_told_success', 'Tcs.C10_effect', 'Tcs.C10_on_chain', 'Tcs.C10_moves_forward', 'Tcs.C10_anc_grows', 'Tcs.C10_on_backend'],
+P('C10', theorems=['Tcs.C10_latest_accepted_any_window', 'Tcs.C10_off_chain_declined_any_window', 'Tcs.C10_accept_iff', 'Tcs.C10_window_five', 'Tcs.C10_told_success', 'Tcs.C10_effect', 'Tcs.C10_on_chain', 'Tcs.C10_moves_forward', 'Tcs.C10_anc_grows', 'Tcs.C10_on_backend'],
   owned={'snap.accept', 'dump.own.snap', 'dump.own.since', 'dump.own.ts', 'dump.own.data', 'as.kind'},
   oracles=[O.o_c10, relabel(O.o_c03, 'C10: a snapshot is accepted exactly when the four conditions hold at that moment and the stored snapshot only moves forward, also when requests overlap')],
   plan={'quick': [hist('c10', 260, 'mem:lib,sql:lib,sql:http'), sched(120, mix='asav', corpus='0', minprefill='3')],
         'thorough': [hist('c10', 5000, 'mem:lib,sql:lib,sql:http'), sched(1500, mix='asav', corpus='0', minprefill='3')]})
-P('C11', theorems=['Tcs.asRunH_lastSnap', 'Tcs.C11_latest_snapshot', 'Tcs.C11_usable_base', 'Tcs.walkOuts_from_base'],
+P('C11', theorems=['Tcs.asRunH_lastSnap', 'Tcs.C11_latest_snapshot', 'Tcs.C11_usable_base', 'Tcs.walkOuts_from_base', 'Tcs.C10_latest_accepted_any_window'],
   owned={'snap.vid', 'snap.payload', 'gs.kind', 'gcv.kind'},
   oracles=[O.o_c11, relabel(O.o_c03, 'C11: GetSnapshot returns the most recently accepted snapshot, also with AddSnapshot overlapping GetSnapshot, AddVersion and other AddSnapshots under the controlled scheduler')],
   plan={'quick': [hist('c11', 220, LIBHTTP), sched(120, mix='asav', corpus='0', minprefill='3')], 'thorough': [hist('c11', 4000, LIBHTTP), sched(1500, mix='asav', corpus='0', minprefill='3')]})
@@ -96,7 +96,7 @@ P('C13', theorems=['Tcs.C13_any_two_backends', 'Tcs.C13_backends_agree', 'Tcs.C1
   aligned=[('mem:lib', 'sql:lib', 'C13: the same request history yields the same responses on every storage backend'),
            ('sql:lib', 'sqlre:lib', 'C13: closing and reopening the database between any two requests changes no later response')],
   plan={'quick': [hist('c13', 260, ALL3), {'scen': 'maxrow', 'args': {}, 'n': 2, 'shards': 2}], 'thorough': [hist('c13', 6000, ALL3), hist('long', 500, ALL3), {'scen': 'maxrow', 'args': {}, 'n': 8, 'shards': 4}]})
-P('C18', theorems=['Tcs.C18_spec', 'Tcs.C18_no_id', 'Tcs.C18_noop', 'Tcs.C18_tables', 'Tcs.C18_tables_sql', 'Tcs.C18_tables_mem', 'Tcs.readsPure_sql', 'Tcs.readsPure_mem', 'Tcs.run_readOnly'],
+P('C18', theorems=['Tcs.C18_spec', 'Tcs.C18_no_id', 'Tcs.C18_noop', 'Tcs.C18_tables', 'Tcs.C18_tables_sql', 'Tcs.C18_tables_mem', 'Tcs.readsPure_sql', 'Tcs.readsPure_mem', 'Tcs.run_readOnly', 'Tcs.C10_off_chain_declined_any_window'],
   owned={'noop.dump'},
   oracles=[O.o_c18, relabel(O.o_c15, 'C18: any refused request leaves every client\'s stored state exactly as it was')],
   plan={'quick': [hist('default', 220, LIBHTTP), grammar(6, 120, lists='none,one')], 'thorough': [hist('default', 4000, LIBHTTP), grammar(60, 300, lists='none,one,many')]})
